@@ -10,3 +10,9 @@ import TsVerif.C10.Props
 #print axioms TsVerif.C10.wfbCheck_sound
 #print axioms TsVerif.C10.edit_marks
 #print axioms TsVerif.C10.laokCheck_sound
+#print axioms TsVerif.point_add_assoc
+#print axioms TsVerif.point_sub_add_cancel
+#print axioms TsVerif.length_add_assoc
+#print axioms TsVerif.length_sub_add_cancel
+#print axioms TsVerif.extent_append
+#print axioms TsVerif.lengthOf_sub_prefix
